@@ -4740,3 +4740,113 @@ func (p *Prog) staleTargetIndexRemoved() []Ob {
 	}
 	return obs
 }
+
+// ---------------------------------------------------------------------------
+// R20h QUERIES-KEEP-NO-STATE (C03, C04, C09, C10): the query methods of the log do not write fields of
+// the log object (plain or atomic): an answer never depends on which queries came before.
+func (p *Prog) queriesKeepNoState() []Ob {
+	r := p.R
+	var bad []string
+	n := 0
+	for _, q := range []string{"Consume", "ConsumeByKey", "Get", "GetByKey", "OffsetByKey", "GetByTime", "OffsetByTime", "NextOffset", "Stat", "Size"} {
+		m := r.ImplMethods[q]
+		if m == nil || m.Blocks == nil {
+			continue
+		}
+		n++
+		for _, b := range m.Blocks {
+			for _, ins := range b.Instrs {
+				switch x := ins.(type) {
+				case *ssa.Store:
+					if fa, ok := x.Addr.(*ssa.FieldAddr); ok && namedOf(derefPtr(fa.X.Type())) == r.Impl {
+						bad = append(bad, fmt.Sprintf("%s: Log.%s stores to the field %s of the log", p.at(x), q, fieldVarOfAddr(fa).Name()))
+					}
+				case *ssa.Call:
+					nm := calleeName(x.Common())
+					if strings.HasPrefix(nm, "(*sync/atomic.") && (strings.HasSuffix(nm, ").Store") || strings.HasSuffix(nm, ").Add") || strings.HasSuffix(nm, ").Swap") || strings.HasSuffix(nm, ").CompareAndSwap")) && len(x.Call.Args) > 0 {
+						if fa, ok := x.Call.Args[0].(*ssa.FieldAddr); ok && namedOf(derefPtr(fa.X.Type())) == r.Impl {
+							bad = append(bad, fmt.Sprintf("%s: Log.%s updates the atomic field %s of the log", p.at(x), q, fieldVarOfAddr(fa).Name()))
+						}
+					}
+				}
+			}
+		}
+	}
+	ob := Ob{Rule: "R20", Inst: "h:queries-keep-no-state", Props: []string{"C03", "C04", "C09", "C10"}, Pos: "-", Nontrivial: true}
+	switch {
+	case n < 5:
+		ob.Status, ob.Msg = Undecided, "the query methods of the log were not found"
+	case len(bad) > 0:
+		ob.Pos = strings.SplitN(bad[0], ": ", 2)[0]
+		ob.Status, ob.Msg, ob.Path = Violated, "a query remembers something in the log object: its next answer depends on which cursor was served before (two consumers, a resumed consumer, a sweep in the other direction)", uniqSorted(bad)
+	default:
+		ob.Status, ob.Msg = Discharged, fmt.Sprintf("%d query methods, none writes a field of the log object", n)
+	}
+	return []Ob{ob}
+}
+
+// R28e BATCH-ENDS-AT-THE-END (C03): the batch reader hands back a batch before it is full only where
+// the file read reported the end of the data; it does not cut a batch after having decoded a record
+// (a first record that does not fit a budget would make an empty batch, which callers take for a
+// missing message).
+func (p *Prog) batchEndsAtTheEnd() []Ob {
+	var obs []Ob
+	dec := map[*ssa.Function]bool{}
+	for _, d := range p.R.RecDecoders {
+		dec[d] = true
+	}
+	ea := p.ErrAtomsCached()
+	for _, fn := range p.Funcs {
+		if !srcFunc(fn) || recvNamed(fn) != p.R.MsgReader || fn.Parent() != nil {
+			continue
+		}
+		var call *ssa.Call
+		for _, b := range fn.Blocks {
+			for _, ins := range b.Instrs {
+				c, ok := ins.(*ssa.Call)
+				if !ok || c.Common().StaticCallee() != nil {
+					continue
+				}
+				for _, g := range p.callees(c) {
+					if dec[g] || dec[unwrapSynthetic(g)] {
+						if _, l := innermostLoop(b); l != nil {
+							call = c
+						}
+					}
+				}
+			}
+		}
+		if call == nil {
+			continue
+		}
+		ob := Ob{Rule: "R28", Inst: "e:batch-ends-at-the-end:" + funcLabel(fn), Props: []string{"C03"}, Pos: p.at(call), Func: funcLabel(fn), Nontrivial: true}
+		var bad []string
+		for _, rt := range returnsOf(fn) {
+			if !call.Block().Dominates(rt.Block()) || ea.isFailureReturn(fn, rt) {
+				continue
+			}
+			okR := false
+			for _, hb := range fn.Blocks {
+				iff, ok := terminator(hb).(*ssa.If)
+				if !ok {
+					continue
+				}
+				for _, t := range sentinelTests(iff.Cond) {
+					if t.atom == "X:io.EOF" && edgeDominates(hb, t.edge, rt.Block()) {
+						okR = true
+					}
+				}
+			}
+			if !okR {
+				bad = append(bad, p.at(rt)+": a batch is returned from inside the loop where the read did not report the end of the data")
+			}
+		}
+		if len(bad) > 0 {
+			ob.Status, ob.Msg, ob.Path = Violated, "the batch reader can cut a batch short after decoding a record: with the first record of a batch this yields an empty batch although the message is there, and the cursor never gets past it", bad
+		} else {
+			ob.Status, ob.Msg = Discharged, "inside the loop a batch is returned only where the read reported io.EOF"
+		}
+		obs = append(obs, ob)
+	}
+	return obs
+}
